@@ -937,6 +937,9 @@ class Executor:
             box = s.store[base.ref]
             if isinstance(box, ObjBox):
                 if attr in box.fields:
+                    fact = box.facts.get(attr)
+                    if fact is not None and not any(f.get_id() == fact.get_id() for f in s.pc[-40:]):
+                        s.assume(fact)       # the assumed field type holds in every state that reads the field
                     return [(s, box.fields[attr])]
                 ci = self.P.find_class(box.cls)
                 if ci is not None and attr in ci.methods:
@@ -954,6 +957,10 @@ class Executor:
                     if key in self.contract.assume_fields:
                         ann = ast.parse(self.contract.assume_fields[key], mode="eval").body
                     v = self.fresh_of_annotation(ann, "fld_%s_%s" % (box.cls, attr), s, node)
+                    if isinstance(v, Z) and ann is not None:
+                        cst, _h = self.constraint_of_annotation(ann, v.t)
+                        if cst is not None:
+                            box.facts[attr] = cst
                     einv = self.contract.opts.get("elem_inv", {}).get(key)
                     if isinstance(v, RefV) and isinstance(s.store[v.ref], AbsBox):
                         s.store[v.ref].seq_id = "%s.%s" % (box.name, attr)
@@ -1061,6 +1068,9 @@ class Executor:
             if head in ("List", "Deque", "list"):
                 return V.isinstance_of(t, "list"), None
             if head in ("Dict", "dict"):
+                if isinstance(ann.slice, ast.Tuple) and len(ann.slice.elts) == 2:
+                    # the key / value types ride along as a hint: assumed for the entries an iteration reads
+                    return V.isinstance_of(t, "dict"), ("dict", ast.unparse(ann.slice.elts[0]), ast.unparse(ann.slice.elts[1]))
                 return V.isinstance_of(t, "dict"), None
             return None, None
         return None, None
@@ -1316,6 +1326,12 @@ class Executor:
                     for (s5, w) in self.need(s4, z3.Implies(z3.Not(is_map), rng), "IndexError", node, "index within the sequence"):
                         if w is None:
                             zv = Z(val)
+                            if isinstance(base.hint, tuple) and base.hint and base.hint[0] == "dict":
+                                # value type of an annotated Dict[K, V] (assumed with the annotation)
+                                cst, h = self.constraint_of_annotation(ast.parse(base.hint[2], mode="eval").body, zv.t)
+                                if cst is not None:
+                                    s5.assume(cst)
+                                zv.hint = h
                             self.assume_elem_facts(t, zv, s5, node)
                             out.append((s5, zv))
                         else:
